@@ -246,7 +246,8 @@ fn run_form(ctx: &mut Ctx, rng: &mut Rng, _index: u64) {
     let nf = if rng.chance(1, 10) { 0 } else { rng.range(0, 5) };
     let texts: Vec<TextField> = (0..nt)
         .map(|_| {
-            let vl = rng.range(0, 300);
+            // (one text value in twenty is long: up to, at and beyond 64 KiB)
+            let vl = if rng.chance(1, 20) && !crate::framework::small_mode() { *rng.pick(&[8_192usize, 65_535, 65_536, 65_537, 70_000, 200_000]) } else { rng.range(0, 300) };
             TextField { name: printable(rng, 6), value: String::from_utf8_lossy(&tricky_data(rng, ctx, vl)).into_owned() }
         })
         .collect();
